@@ -2,6 +2,7 @@
 package mount
 
 import (
+	"errors"
 	"io"
 	"path"
 	"strings"
@@ -200,12 +201,12 @@ func (fs *FS) Rename(oldname, newname string) error {
 
 	oldFile, err := oldMount.Open(oldSubPath)
 	if err != nil {
-		return err
+		return &hackpadfs.LinkError{Op: "rename", Old: oldname, New: newname, Err: err}
 	}
 	defer func() { _ = oldFile.Close() }()
 	newFile, err := hackpadfs.OpenFile(newMount, newSubPath, hackpadfs.FlagWriteOnly|hackpadfs.FlagCreate|hackpadfs.FlagTruncate, oldInfo.Mode())
 	if err != nil {
-		return err
+		return &hackpadfs.LinkError{Op: "rename", Old: oldname, New: newname, Err: err}
 	}
 	newFileWriter, ok := newFile.(io.Writer)
 	if !ok {
@@ -215,7 +216,16 @@ func (fs *FS) Rename(oldname, newname string) error {
 	_, err = io.Copy(newFileWriter, oldFile)
 	if err != nil {
 		_ = hackpadfs.Remove(newMount, newSubPath)
-		return err
+		return &hackpadfs.LinkError{Op: "rename", Old: oldname, New: newname, Err: err}
 	}
-	return hackpadfs.Remove(oldMount, oldSubPath)
+	// a replaced destination keeps its own mode when opened, the renamed file must carry the source's
+	err = hackpadfs.Chmod(newMount, newSubPath, oldInfo.Mode())
+	if err != nil && !errors.Is(err, hackpadfs.ErrNotImplemented) {
+		return &hackpadfs.LinkError{Op: "rename", Old: oldname, New: newname, Err: err}
+	}
+	err = hackpadfs.Remove(oldMount, oldSubPath)
+	if err != nil {
+		return &hackpadfs.LinkError{Op: "rename", Old: oldname, New: newname, Err: err}
+	}
+	return nil
 }
